@@ -24,6 +24,7 @@ import (
 
 	"github.com/google/uuid"
 	"github.com/rbell/toolchest/workqueue"
+	"verifharness/internal/werr"
 )
 
 type tokErr struct{ k int }
@@ -155,11 +156,12 @@ func oneRun(c runCfg, fails *[]failure) runRes {
 	total := c.Producers * c.PerProducer
 	counts := make([]atomic.Int64, total)
 	var running, maxRunning, finished atomic.Int64
-	errs := make([]*tokErr, total)
+	store := werr.NewStore() // error values of every dynamic kind (pointer, struct, int, string, typed nil, wrapped, uncomparable)
+	errs := make([]error, total)
 	nerr := 0
 	for i := range errs {
 		if c.ErrEvery > 0 && i%c.ErrEvery == 0 {
-			errs[i] = &tokErr{i}
+			errs[i] = store.Make(i)
 			nerr++
 		}
 	}
@@ -342,13 +344,18 @@ func oneRun(c runCfg, fails *[]failure) runRes {
 	close(stopSubs)
 	for _, s := range subs {
 		<-s.done
-		cnt := map[error]int{}
+		cnt := map[int]int{} // by token: the values need not be comparable
 		for _, e := range s.got {
-			cnt[e]++
+			if k, ok := store.Token(e); ok && k >= 0 {
+				cnt[k]++
+			} else {
+				fail("error-identity", fmt.Sprintf("subscriber received a value no work function returned: %T %v", e, e))
+				break
+			}
 		}
 		for i, e := range errs {
-			if e != nil && cnt[error(e)] != 1 {
-				fail("error-exactly-once", fmt.Sprintf("subscriber received error of item %d %d times", i, cnt[error(e)]))
+			if e != nil && cnt[i] != 1 {
+				fail("error-exactly-once", fmt.Sprintf("subscriber received the error of item %d (%s) %d times", i, werr.Kind(i), cnt[i]))
 				break
 			}
 		}
@@ -358,11 +365,13 @@ func oneRun(c runCfg, fails *[]failure) runRes {
 	}
 	if late != nil {
 		<-late.done
-		cnt := map[error]int{}
+		cnt := map[int]int{}
 		for _, e := range late.got {
-			cnt[e]++
 			if e == nil {
 				fail("error-nil", "a subscriber received a nil error")
+			}
+			if k, ok := store.Token(e); ok {
+				cnt[k]++
 			}
 		}
 		for _, n := range cnt {
@@ -399,6 +408,15 @@ func main() {
 		for _, W := range []int{1, 2, 3} {
 			if len(fails) == 0 {
 				runs = append(runs, lazySubscriberRun(W, 2, &fails))
+			}
+		}
+	}
+	if *prop == "C14" {
+		// subscriber counts across the usual small-buffer thresholds; every subscriber must hold every error exactly once
+		for i, n := range []int{0, 1, 2, 7, 8, 9, 16, 17, 33, 64, 65, 100} {
+			if len(fails) == 0 {
+				c := runCfg{Producers: 2, W: 1 + i%3, L: 1 + i%2, PerProducer: 4, Subs: n, ErrEvery: 2, ConcSubs: i%2 == 1, Seed: rng.Int63()}
+				runs = append(runs, oneRun(c, &fails))
 			}
 		}
 	}
